@@ -63,6 +63,9 @@ fn take_slice_aligned(data: &mut [u8], take_len: usize) -> (&mut [u8], &mut [u8]
     let aligned_offset: usize = ptr.align_offset(DEFAULTALIGN);
     let aligned_len: usize = self_len.saturating_sub(aligned_offset);
 
+    #[cfg(feature = "verif-hooks")]
+    verif_hooks::record(ptr as usize, self_len, take_len);
+
     if let Some(rem_len) = aligned_len.checked_sub(take_len) {
         // SAFETY: `aligned_offset + take_len <= self_len`, so both sub-slices are
         // within bounds. They are non-overlapping because `rem` starts immediately
@@ -77,5 +80,35 @@ fn take_slice_aligned(data: &mut [u8], take_len: usize) -> (&mut [u8], &mut [u8]
         }
     } else {
         panic!("Attempted to take {take_len} from scratch with {aligned_len} aligned bytes left");
+    }
+}
+
+/// Thread-local recorder of scratch takes, for external verification tooling.
+///
+/// Compiled only with the `verif-hooks` feature; recording is off unless started.
+#[cfg(feature = "verif-hooks")]
+pub mod verif_hooks {
+    use std::cell::RefCell;
+
+    thread_local! {
+        static TRACE: RefCell<Option<Vec<(usize, usize, usize)>>> = const { RefCell::new(None) };
+    }
+
+    /// Starts recording `(window address, window length, requested length)` of every take on this thread.
+    pub fn trace_start() {
+        TRACE.with(|t| *t.borrow_mut() = Some(Vec::new()));
+    }
+
+    /// Stops recording and returns the takes seen since [`trace_start`].
+    pub fn trace_stop() -> Vec<(usize, usize, usize)> {
+        TRACE.with(|t| t.borrow_mut().take().unwrap_or_default())
+    }
+
+    pub(super) fn record(addr: usize, len: usize, take: usize) {
+        TRACE.with(|t| {
+            if let Some(v) = t.borrow_mut().as_mut() {
+                v.push((addr, len, take));
+            }
+        });
     }
 }
